@@ -259,7 +259,7 @@ func TestMC_C03(t *testing.T) {
 		cfg := mk(c)
 		if c.preLow+c.preHigh > 0 {
 			cfg.Bounds = []sched.Bound{{PB: 0}, {PB: 1}}
-			if thorough || c.name == "pre1024high+hh" {
+			if thorough || c.name == "pre1024high+hh" || c.name == "pre1024high+1" {
 				// one producer's two high-priority requests around the 1024-task threshold: needs a
 				// switch to the loop and back
 				cfg.Bounds = append(cfg.Bounds, sched.Bound{PB: 2})
